@@ -153,7 +153,7 @@ Aux:
 				// ignore
 			default:
 				if !ss.Bound(Symbol(ad.Name)) {
-					ss.Let(Symbol(ad.Name), ad.Default)
+					ss.Let(Symbol(ad.Name), evalDefault(ss, ad.Default, depth))
 				}
 			}
 		case restMode:
@@ -174,7 +174,7 @@ Aux:
 			if AmpAux == asym {
 				mode = auxMode
 			} else if !ss.Bound(asym) {
-				ss.Let(asym, ad.Default)
+				ss.Let(asym, evalDefault(ss, ad.Default, depth))
 			}
 		case auxMode:
 			val := ad.Default
@@ -186,6 +186,17 @@ Aux:
 		}
 	}
 	return lam.BoundCall(ss, depth)
+}
+
+// evalDefault evaluates the default value form of an &optional or &key
+// parameter that was not provided. The evaluation takes place in the scope of
+// the call so parameters earlier in the lambda list are visible to the form.
+func evalDefault(s *Scope, form Object, depth int) Object {
+	d2 := depth + 1
+	if list, ok := form.(List); ok && 0 < len(list) {
+		form = ListToFunc(s, list, d2)
+	}
+	return s.Eval(form, d2)
 }
 
 // isKey returns true if name is the name of a parameter declared between
